@@ -211,6 +211,7 @@ def run_property(prop, tier, seed):
     eng.dead_under_contract = {}
     eng.executed_nodes = set()
     eng.executed_all = set()
+    eng.auto_inlined_unknown = set()
     eng.dead_handlers = {}
     eng.inlined_functions = {}
     problems = R.check_attached(repo)
@@ -443,6 +444,7 @@ def run_property(prop, tier, seed):
                 t: sorted(set.intersection(*[set(x) for x in v.values()])) for t, v in sorted(eng.dead_under_contract.items())
                 if v and set.intersection(*[set(x) for x in v.values()])},
             'statements_of_inlined_callees_no_feasible_path_reaches': inlined_dead,
+            'package_functions_without_contract_inlined_at_their_call_sites': sorted(eng.auto_inlined_unknown),
             'roots_without_a_normal_return': sorted(paths_report.get('roots_without_a_normal_return', [])),
             'allowed_exceptions_no_path_raises': paths_report.get('allowed_exceptions_no_path_raises', {}),
             'racy_reads': sorted(f'{a}:{b}@{c}' for a, b, c in eng.racy_reads),
